@@ -272,26 +272,39 @@ func (c *connection) sendWaitReply(callerCtx context.Context, msg Message) (Mess
 	timer := pool.GetTimer(timeout)
 	defer pool.PutTimer(timer)
 
-	select {
-	case res := <-ch:
-		return res.msg, res.err
-	case <-timer.C:
-		// Protocol timeout: T3 (data) — a transaction failure.
-		if isData {
-			c.metrics.incDataMsgErr()
-
-			if c.cfg.Load().autoS9F9 {
-				c.sendAutoS9F9(msg)
+	for {
+		select {
+		case res := <-ch:
+			// A data transaction is only ever completed by a data message (or by a Reject.req, which
+			// arrives as res.err). A control response that merely reuses the primary's system bytes
+			// (the registry is keyed by system bytes alone) is not this transaction's reply: returning
+			// it would hand the caller a nil *DataMessage together with a nil error. Skip it and keep
+			// waiting for the real reply, the timeout, teardown or cancellation.
+			if isData && res.err == nil {
+				if _, ok := res.msg.(*DataMessage); !ok {
+					continue
+				}
 			}
-		}
 
-		return nil, timeoutErr
-	case <-e.ctx.Done():
-		// Connection teardown/drop — a lifecycle event, NOT a data transaction error, so a
-		// normal Close mid-transaction never inflates the cumulative error counter.
-		return nil, ErrConnClosed
-	case <-callerCtx.Done():
-		return nil, callerCtx.Err()
+			return res.msg, res.err
+		case <-timer.C:
+			// Protocol timeout: T3 (data) — a transaction failure.
+			if isData {
+				c.metrics.incDataMsgErr()
+
+				if c.cfg.Load().autoS9F9 {
+					c.sendAutoS9F9(msg)
+				}
+			}
+
+			return nil, timeoutErr
+		case <-e.ctx.Done():
+			// Connection teardown/drop — a lifecycle event, NOT a data transaction error, so a
+			// normal Close mid-transaction never inflates the cumulative error counter.
+			return nil, ErrConnClosed
+		case <-callerCtx.Done():
+			return nil, callerCtx.Err()
+		}
 	}
 }
 
